@@ -198,6 +198,10 @@ func init() {
 					c.Count("compile-error:" + cs.Family)
 					continue
 				}
+				if !conc.Bounded(bc, cs.Recover, vms) {
+					c.Count("too-long:" + cs.Family)
+					continue
+				}
 				c.Count("family:" + cs.Family)
 				var solo []string
 				var diffs []conc.Diff
